@@ -71,6 +71,23 @@ def armNullable (kvs : Kvs) (ts : List JT) : Option Step :=
     | none => some (.again (setType kvs (some (.str "null"))))
   else none
 
+/-- which keyword groups a schema object has (what the match looks at besides the type) -/
+structure Groups where
+  fmt : Bool
+  en : Bool
+  cn : Bool
+  sub : Bool
+  num : Bool
+  str : Bool
+  arr : Bool
+  obj : Bool
+  rf : Bool
+deriving Repr, DecidableEq
+
+def groupsOf (kvs : Kvs) : Groups :=
+  { fmt := has kvs "format", en := has kvs "enum", cn := has kvs "const", sub := subP kvs, num := numP kvs, str := strP kvs,
+    arr := arrP kvs, obj := objP kvs, rf := has kvs "$ref" }
+
 /-- the arm a lone subschema keyword is handed to -/
 def soleArm (kvs : Kvs) : Arm :=
   match soleSub kvs with
@@ -82,16 +99,16 @@ def soleArm (kvs : Kvs) : Arm :=
 
 /-- the arms for a single stated type (`single t`: the type is exactly `t`; `untyped`: no `type` at all; `one`: some single
     type) up to and including the subschema arms, in the order of the source: (guard, arm) -/
-def typedArms (kvs : Kvs) (single : JT → Bool) (untyped one : Bool) : List (Bool × Arm) :=
-  let fmt := has kvs "format"
-  let en := has kvs "enum"
-  let cn := has kvs "const"
-  let sub := subP kvs
-  let num := numP kvs
-  let str := strP kvs
-  let arr := arrP kvs
-  let obj := objP kvs
-  let rf := has kvs "$ref"
+def typedArmsG (g : Groups) (sole : Arm) (single : JT → Bool) (untyped one : Bool) : List (Bool × Arm) :=
+  let fmt := g.fmt
+  let en := g.en
+  let cn := g.cn
+  let sub := g.sub
+  let num := g.num
+  let str := g.str
+  let arr := g.arr
+  let obj := g.obj
+  let rf := g.rf
   [ -- strings
     (single .string && !en && !cn && !sub && !rf, .string),
     (untyped && !en && !cn && !sub && !num && str && !arr && !obj && !rf, .stringUntyped),
@@ -118,11 +135,14 @@ def typedArms (kvs : Kvs) (single : JT → Bool) (untyped one : Bool) : List (Bo
     (rf, .referenceMerged),
     -- enumerations of a non-string type / of no stated type
     (one && en, .typedEnum),
-    (untyped && !fmt && en && !cn && !sub && !num && !str && !arr && !obj, .unknownEnum),
+    (untyped && !fmt && en && !cn && !sub && !num && !str && !arr && !obj && !rf, .unknownEnum),
     -- subschemas alone
-    (!fmt && !en && !cn && sub && !num && !str && !arr && !obj, soleArm kvs),
+    (!fmt && !en && !cn && sub && !num && !str && !arr && !obj && !rf, sole),
     -- subschemas next to something else
     (sub, .subschemasWithRest) ]
+
+def typedArms (kvs : Kvs) (single : JT → Bool) (untyped one : Bool) : List (Bool × Arm) :=
+  typedArmsG (groupsOf kvs) (soleArm kvs) single untyped one
 
 /-- the first arm whose guard holds; `none`: fall through to the rewriting arms -/
 def armsTyped (kvs : Kvs) (single : JT → Bool) (untyped one : Bool) : Option Step :=
